@@ -1,0 +1,31 @@
+//go:build verif
+// +build verif
+
+package bidengine
+
+import (
+	"time"
+
+	"github.com/ovrclk/akash/util/veriftrace"
+	mquery "github.com/ovrclk/akash/x/market/query"
+)
+
+// VerifTimer, when set by a verification harness, supplies the channel the
+// order monitor uses as its bid timeout instead of the time.After channel.
+// Returning nil keeps the real timer.
+var VerifTimer func(order string, d time.Duration) <-chan time.Time
+
+// vt reports one step of the order monitor to the verification trace.
+func (o *order) vt(event string, kv ...interface{}) {
+	veriftrace.Emit("bidengine.order", mquery.OrderPath(o.orderID), event, kv...)
+}
+
+// vtTimer lets a harness substitute the bid timeout channel.
+func (o *order) vtTimer(ch <-chan time.Time) <-chan time.Time {
+	if fn := VerifTimer; fn != nil {
+		if c := fn(mquery.OrderPath(o.orderID), o.cfg.BidTimeout); c != nil {
+			return c
+		}
+	}
+	return ch
+}
